@@ -313,9 +313,10 @@ def runCase (j : Json) : E Json := do
       | v => do pure (some (← parseArr v))
     let kwargs ← (← jList (← j.getObjVal? "kwargs")).mapM fun kv => do
       match ← jList kv with
-      | [k, v] => pure ((← jNat k), (← parseArr v))
+      | [k, .null] => pure ((← jNat k), (none : Option (Arr CRat)))
+      | [k, v] => pure ((← jNat k), some (← parseArr v))
       | _ => throw "bad kwarg"
-    match bindArgs a.poly.names args kwargs with
+    match bindArgsN a.poly.names args kwargs with
     | none => pure (showErr .typeError)
     | some params =>
       match callArr rc rn a params with
